@@ -158,10 +158,19 @@ class SlowList(list):
 
 
 def wait_both(host, eq, bound):
+    """both ends report communication — and are in the COMMUNICATING state when they say so (what `waitfor_communicating` tells the application
+    must be this handler's own state, not that of another handler in the same process)"""
     t0 = time.time()
     ok_h = host.waitfor_communicating(bound)
+    st_h = host.communication_state.current
     ok_e = eq.waitfor_communicating(max(0.01, bound - (time.time() - t0)))
-    return ok_h and ok_e, time.time() - t0
+    st_e = eq.communication_state.current
+    if (ok_h and st_h != CommunicationState.COMMUNICATING) or (ok_e and st_e != CommunicationState.COMMUNICATING):
+        WAIT_LIES.append((ok_h, st_h.name, ok_e, st_e.name))
+    return ok_h and ok_e and not WAIT_LIES, time.time() - t0
+
+
+WAIT_LIES: list = []
 
 
 def bounded(fn, bound=CALL_BOUND):
@@ -595,6 +604,9 @@ def main():
     mids = [(ha, who, stt) for ha in (True, False) for who in ("host", "equip") for stt in ("WAIT_DELAY", "WAIT_CRA")]
     for k, (ha, who, stt) in enumerate(mids if big else [mids[(a.seed + j * 3) % 8] for j in range(3)]):
         scenario_disable_mid_establish(res, rng.fork(f"mid{k}"), ha, who, stt, f"mid{k}")
+    if WAIT_LIES:
+        res.violate("c20-waitfor-wrong", "waitfor_communicating() returned True while that handler's own communication state was not COMMUNICATING "
+                    "(host result/state, equipment result/state)", {"observations": WAIT_LIES[:5]})
     # abstraction check: every observed step of the joint (session, communication) state is a path of the abstract pair model
     drv = hlib.Driver()
     import c20_gem
